@@ -1052,6 +1052,16 @@ const MacroFam MACRO_FAMS[] = {
     {"DEFINE RUN __INC__ WITH <ID> , <INT> END AS $0 + $1 END DEFINE", "x := RUN __INC__ WITH y , 1 END", true, false, true},
     {"DEFINE RUN __DEC__ WITH <ID> , <INT> END AS $0 - $1 END DEFINE", "x := y - 2 ; z := RUN __DEC__ WITH y , 3 END", true, false, true},
     {"DEFINE <ID> := grow AS $0 := $0 + 1 ; $0 := grow END DEFINE", "x0 := grow", true, false},
+    // several uses of macros of different priorities: with a small budget the uses left over are not where the last step happened
+    {"DEFINE PRIO 9 p AS x := 1 END DEFINE DEFINE PRIO 2 q AS y := 2 END DEFINE", "p ; q ; p ; q ; p ; q", false, false},
+    {"DEFINE PRIO 2 p AS x := 1 END DEFINE DEFINE PRIO 9 q AS y := 2 END DEFINE", "q ; p ; p ; q ; q ; p", false, false},
+    {"DEFINE PRIO 5 p <ID> AS $0 := 1 END DEFINE DEFINE PRIO 6 q <ID> AS p $0 END DEFINE", "q a ; p b ; q c ; p d", false, false},
+    {"DEFINE PRIO 6 p <ID> AS $0 := 1 END DEFINE DEFINE PRIO 5 q <ID> AS p $0 END DEFINE", "p a ; q b ; p c ; q d ; q e", false, false},
+    // a runaway macro at one end of the program, another pending use far away at the other end, either priority order
+    {"DEFINE PRIO 9 hi AS x := 1 ; hi END DEFINE DEFINE PRIO 2 lo AS y := 2 END DEFINE", "lo ; z := 1 ; z := 2 ; z := 3 ; z := 4 ; z := 5 ; hi", true, false},
+    {"DEFINE PRIO 2 hi AS x := 1 ; hi END DEFINE DEFINE PRIO 9 lo AS y := 2 END DEFINE", "lo ; z := 1 ; z := 2 ; z := 3 ; z := 4 ; z := 5 ; hi", true, false},
+    {"DEFINE PRIO 9 hi AS hi ; x := 1 END DEFINE DEFINE PRIO 2 lo AS y := 2 END DEFINE", "hi ; z := 1 ; z := 2 ; z := 3 ; z := 4 ; z := 5 ; lo", true, false},
+    {"DEFINE PRIO 2 hi AS hi ; x := 1 END DEFINE DEFINE PRIO 2 lo AS lo END DEFINE", "hi ; z := 1 ; z := 2 ; z := 3 ; z := 4 ; z := 5 ; lo ; z := 6 ; z := 7 ; z := 8 ; hi", true, false},
 };
 const int N_FAMS = sizeof(MACRO_FAMS) / sizeof(MACRO_FAMS[0]);
 
